@@ -107,7 +107,11 @@ impl<'c> SetCookie<'c> {
                 },
                 Some(1) => {
                     r.consume("=").ok_or_else(|| format!("Invalid `Max-Age`: No `=` found"))?;
-                    let value = r.read_until(b"; ").iter().fold(0, |secs, d| 10*secs + (*d - b'0') as u64);
+                    let digits = r.read_until(b"; ");
+                    let value = (!digits.is_empty() && digits.iter().all(u8::is_ascii_digit))
+                        .then(|| digits.iter().try_fold(0u64, |secs, d| secs.checked_mul(10)?.checked_add((*d - b'0') as u64)))
+                        .flatten()
+                        .ok_or_else(|| format!("Invalid `Max-Age`: `{}`", digits.escape_ascii()))?;
                     this.MaxAge = Some(value)
                 }
                 Some(2) => {
